@@ -99,6 +99,8 @@ pub struct WStats {
     pub violations: u64,
     #[serde(default)]
     pub hash_files: Vec<String>,
+    #[serde(default)]
+    pub explain: (u64, u64, u64, u64),
 }
 
 impl WStats {
@@ -152,6 +154,7 @@ impl WStats {
         }
         self.violations += o.violations;
         self.hash_files.extend(o.hash_files);
+        self.explain = (self.explain.0 + o.explain.0, self.explain.1 + o.explain.1, self.explain.2 + o.explain.2, self.explain.3 + o.explain.3);
     }
 }
 
@@ -382,6 +385,7 @@ pub fn cmd_worker(args: &[String]) -> i32 {
             }
         }
     }
+    st.explain = crate::explain::EXPLAIN_TOTALS.with(|t| t.get());
     // the two hash sets go to sorted binary files next to the build output; the driver merges and deletes them
     let dir = format!("{}/sim/target/tmp", base_dir());
     let _ = std::fs::create_dir_all(&dir);
@@ -701,6 +705,7 @@ fn write_evidence(def: &check::CheckDef, prop: &str, tier: &str, seed: u64, runs
             "monitored_accesses": t.hb_accesses,
             "monitored_cross_task_accesses": t.hb_cross,
             "inconclusive_runs(other property's oracle fired)": t.inconclusive,
+            "explainability_search": {"histories_searched_exhaustively": t.explain.0, "model_states_visited": t.explain.1, "searches_that_hit_the_state_budget(counted as explained)": t.explain.2, "histories_outside_the_supported_alphabet(not judged)": t.explain.3},
             "known_findings_hit": known_hits,
             "second_engine": miri_stats,
             "real_code": ["kanal src/lib.rs", "src/internal.rs", "src/signal.rs", "src/future.rs", "src/pointer.rs", "src/mutex.rs", "src/backoff.rs", "src/error.rs", "lock_api", "alloc::collections::VecDeque", "alloc::sync::Arc"],
